@@ -150,10 +150,11 @@ Lemma step_open s o : s_open s = true ->
     (upd_closed s (map (fun o => match o with
                                  | Some b => Some (if b_id b =? id then rm_index b else b)
                                  | None => None end) (s_closed s)), RNum (if present then 1 else 0))
+  | OCut id keep => (s, RUnit)
   end.
 Proof.
   intros Ho. unfold step. rewrite Ho. cbn [negb]. rewrite andb_false_r.
-  destruct o; reflexivity.
+  destruct o; try reflexivity. unfold do_cut. rewrite Ho. reflexivity.
 Qed.
 
 (* the worker survives every operation except the end of the session *)
@@ -249,11 +250,11 @@ Proof.
   - rewrite alive_quiesce. exact Ha.
 Qed.
 
-Lemma alive_do_open files c lazy f2 : s_alive (do_open K files c lazy f2) = true.
+Lemma alive_do_open files bad quar c lazy f2 : s_alive (do_open K files bad quar c lazy f2) = true.
 Proof.
   unfold do_open. destruct files as [|f fs]; [reflexivity|].
   destruct lazy; [reflexivity|].
-  destruct (rev (sort_by_id (map (blob_from_file K) (f :: fs)))); reflexivity.
+  destruct (rev (sort_by_id (map (blob_from_file K) (filter (fun b => negb (is_bad bad b)) (f :: fs))))); reflexivity.
 Qed.
 
 (* a storage that was just opened has a live worker *)
@@ -273,7 +274,8 @@ Lemma step_closed s o : s_open s = false -> (forall lazy, o <> OOpen lazy) -> s_
 Proof.
   intros Ho Hne. unfold step. rewrite Ho.
   destruct o; cbn [needs_open negb andb fst]; try exact Ho.
-  exfalso. apply (Hne lazy). reflexivity.
+  - exfalso. apply (Hne lazy). reflexivity.
+  - rewrite open_do_cut. exact Ho.
 Qed.
 
 (* the worker is started by open (do_open) and stopped only by close / drop (closed_state) *)
